@@ -1,5 +1,9 @@
 import FlatModel.Props.C19
+import FlatModel.Props.C19Stack
 #print axioms FC.C19.cost
 #print axioms FC.C19.used_bytes
 #print axioms FC.C19.dense_state
 #print axioms FC.C19.dense_free
+#print axioms FC.C19.flatstack_dense_free
+#print axioms FC.C19.consec_stack_free
+#print axioms FC.C19.columns_stack_free
